@@ -1054,7 +1054,15 @@ expand_manifests(string &expr, bool expand_undefined,
                  const CPPManifest::Ignores &ignores) const {
   size_t p = 0;
   while (p < expr.size()) {
-    if (isalpha(expr[p]) || expr[p] == '_') {
+    if (expr[p] == CPPManifest::no_expand_mark) {
+      // This name was found while its macro was being expanded.  It stays
+      // as it is for good.
+      p++;
+      while (p < expr.size() && (isalnum(expr[p]) || expr[p] == '_')) {
+        p++;
+      }
+    }
+    else if (isalpha(expr[p]) || expr[p] == '_') {
       size_t q = p;
       while (p < expr.size() && (isalnum(expr[p]) || expr[p] == '_')) {
         p++;
@@ -1118,6 +1126,14 @@ expand_manifests(string &expr, bool expand_undefined,
           }
           expr = expr.substr(0, q) + result + expr.substr(p);
           p = q + result.size();
+        }
+        else if (mi != _manifests.end() && !expand_undefined) {
+          // The name of a macro that is being expanded.  It is not replaced,
+          // and per the standard it is no longer available for replacement
+          // later either, when the text is scanned again in a context where
+          // that macro is no longer being expanded.
+          expr.insert(q, 1, CPPManifest::no_expand_mark);
+          p++;
         }
         else if (ident == "__FILE__") {
           // Special case: this is a dynamic definition.
@@ -1236,6 +1252,12 @@ internal_get_next_token() {
     return get_identifier(c);
   } else if (isdigit(c)) {
     return get_number(c);
+  } else if (c == CPPManifest::no_expand_mark) {
+    // A macro name that must not be expanded (see expand_manifests).
+    int next_c = peek();
+    if (isalpha(next_c) || next_c == '_') {
+      return get_identifier(get(), true);
+    }
   }
 
   if (c == EOF) {
@@ -2281,7 +2303,7 @@ get_quoted_string(int c) {
  *
  */
 CPPToken CPPPreprocessor::
-get_identifier(int c) {
+get_identifier(int c, bool no_expand) {
   YYLTYPE loc;
   loc.file = get_file();
   loc.first_line = get_line_number();
@@ -2350,7 +2372,8 @@ get_identifier(int c) {
 
   // Is it a manifest?
   Manifests::const_iterator mi = _manifests.find(name);
-  if (mi != _manifests.end() && !should_ignore_manifest((*mi).second)) {
+  if (mi != _manifests.end() && !no_expand &&
+      !should_ignore_manifest((*mi).second)) {
     // If the manifest is expecting arguments, we don't expand it unless the
     // the next token is an open-parenthesis.
     CPPManifest *manifest = (*mi).second;
